@@ -36,8 +36,9 @@ CLAIMED.update({
         text="MemBlockingControl: representation invariants I1-I3 (ready = waited-on and not waiting; no empty wait set; every forward edge has its reverse edge) "
              "are proved to be preserved, waiting_for_results / release_waiters are proved to add / remove exactly the stated edges over the whole graph, and "
              "get_blocking_invocations is proved to yield only ready runnable ids, never more than max(n,0), all of them when fewer than n, without duplicates. "
-             "Tree completion is liveness and is not claimed.",
-        technique="contract-based deductive verification (AST->z3 VCs with quantified set/map invariants) + bounded wait-graph histories on both real backends",
+             "Tree completion is liveness and is not claimed. " 
+             "The orchestrator-level declaration records every awaited id whatever its status (contract); bounded: waits declared on a child in every status, chains and group trees of nested waits on 1 and 2 slots.",
+        technique="contract-based deductive verification (AST->z3 VCs with quantified set/map invariants) + bounded wait-graph histories on both real backends + bounded waits-in-every-status and nested wait trees on the real ThreadRunner",
     ),
     "C12": dict(
         category="proof", design_ref="DESIGN.md §5 C12",
@@ -73,15 +74,17 @@ CLAIMED.update({
              "Leaf contracts: the in-memory outcome tables are written one entry at a time and storing one kind of outcome never touches the other (SQLite: one "
              "committed upsert into the own table, nothing else); the client data store writes on every call and addresses the whole content (C15 functions); "
              "get_final_result never yields a value for a non-final observed status, returns the stored result of THIS invocation on SUCCESS and raises its "
-             "stored exception on FAILED. The value round trip through third-party serializers is C15's (bounded there).",
-        technique="contract-based deductive verification: step invariant between every two effects of the real glue functions + leaf and reader contracts",
+             "stored exception on FAILED. The value round trip through third-party serializers is C15's (bounded there). " 
+             "Also: every outcome is read through get_final_result (structural), rebuilding a stored exception keeps no process-wide state (purity scan); bounded: a reader right before every backend effect of the real finishing operations and every effect failing once, exception classes defined after the first reads.",
+        technique="contract-based deductive verification: step invariant between every two effects of the real glue functions + leaf and reader contracts + structural/purity scans + bounded reader-between-effects and exception-class histories",
     ),
     "C06": dict(
         category="other", design_ref="DESIGN.md §5 C06",
         text="Sequential kernel: authorised <=> no same-key invocation in the given statuses; arguments indexed on every registering path incl. the batch path; "
              "blocked invocations end CONCURRENCY_CONTROLLED(_FINAL) per option. Two genuine defects are listed as known findings (poll raises for blocked "
-             "RETRY/REROUTED invocations; check-then-act window between the authorisation check and the RUNNING request), each replayed on the real code.",
-        technique="contract-based deductive verification of the real glue (AST->z3 VCs over abstract component contracts) + ownership obligation + replays on the real code",
+             "RETRY/REROUTED invocations; check-then-act window between the authorisation check and the RUNNING request), each replayed on the real code. " 
+             "Bounded additions: a batch that repeats one call, plain versus batched submission with small and externalised keys, equal keys of different tasks within one poll.",
+        technique="contract-based deductive verification of the real glue (AST->z3 VCs over abstract component contracts) + ownership obligation + replays on the real code + bounded submission-path and cross-task scenarios on both backends",
     ),
     "C07": dict(
         category="proof", design_ref="DESIGN.md §5 C07",
@@ -111,7 +114,8 @@ CLAIMED.update({
         category="proof", design_ref="DESIGN.md §5 C14",
         text="Loop iteration of PersistentProcessRunner and MultiThreadRunner proved: dead workers are forgotten, the pool is refilled to its configured size, live workers "
              "are kept; get_active_child_runner_ids returns exactly the tracked ids whose process is alive (so heartbeats are reported for live workers only). "
-             "OS processes are abstract objects with an uninterpreted liveness predicate.",
+             "OS processes are abstract objects with an uninterpreted liveness predicate. " 
+             "Queue-driven sizing of MultiThreadRunner and the reporting of child heartbeats (exactly the children alive at this pass) are under contract as well.",
         technique="contract-based deductive verification (AST->z3 VCs with abstract process objects) + bounded stand-in processes on the real loop code",
     ),
     "C17": dict(
@@ -148,15 +152,17 @@ CLAIMED.update({
         text="Kernel: the cron decision function is proved equal to the spec written from the statement under the croniter schedule axioms; the compare-and-swap on "
              "the last cron execution and the trigger-run claim are proved for the Mem store (incl. lock ownership) and as SQL glue incl. BEGIN IMMEDIATE ownership for "
              "SQLite. Three genuine defects are known findings with replays on the real code (minute precision of croniter.match; k pending occurrences collapsed / "
-             "launched with the first occurrence's arguments). trigger_loop_iteration itself is only in bounded scenarios.",
-        technique="contract-based deductive verification (assumed croniter contract with conformance test, lock/transaction ownership) + bounded loop scenarios",
+             "launched with the first occurrence's arguments). trigger_loop_iteration itself is only in bounded scenarios. " 
+             "One poll of a cron condition (_should_trigger_cron_condition) yields an occurrence iff the condition holds for (now, the STORED last execution) and then moves the stored value (contract over an abstract store; found and fixed the first-poll defect 5a8d3fa); bounded: cron decisions against a brute-force schedule evaluation, shared condition with re-registration, alternating pollers.",
+        technique="contract-based deductive verification (assumed croniter contract with conformance test, lock/transaction ownership) + bounded loop scenarios + poll contract + bounded brute-force cron evaluation",
     ),
     "C15": dict(
         category="other", design_ref="DESIGN.md §5 C15",
         text="compute_args_id is proved (SMT strings/sequences) to be sha256 of the encoding of ALL pairs in sorted-key order, a function of the mapping, 'no_args' when "
              "empty; the encoding step is proved injective from the assumed json.dumps contract; _generate_key content-addresses the whole value; size routing and "
              "resolve(serialize(x)) = x are proved over an abstract store with content-addressing and LRU invariants. Third-party serializers and call spellings are "
-             "bounded. One known finding (strings starting with the reserved prefix do not round-trip).",
+             "bounded. One known finding (strings starting with the reserved prefix do not round-trip). " 
+             "Bounded additions: explicit falsy arguments bind as Python binds them (inspect), exceptions round-trip small and externalised.",
         technique="contract-based deductive verification over SMT strings/sequences + bounded stand-ins for third-party round trips",
     ),
     "C18": dict(
@@ -178,7 +184,8 @@ CLAIMED.update({
              "written from the lifecycle spec and proved closed under every accepted request of a task thread. Proved: after run() returns, every "
              "invocation of the runner's table is final or available-and-queued and nothing is PENDING/RUNNING under the runner; a stop request always "
              "takes the flag down. Two genuine defects are known findings with replays on the real runner (join of a waiter blocks the stop forever; "
-             "slot reclaiming forgets invocations left RUNNING by a dead thread). Process runners: only C14's pool contracts.",
+             "slot reclaiming forgets invocations left RUNNING by a dead thread). Process runners: only C14's pool contracts. " 
+             "Status reads are scheduling points of the task threads; retry/reroute of a task thread verified under the C03 registry (status write before re-queue); the stop-signal handlers stay installed until the sweep is over (structural).",
         technique="contract-based deductive verification with a rely relation for the task threads (AST->z3 VCs) + bounded stop-in-every-phase runs of the real ThreadRunner",
     ),
 })
